@@ -30,9 +30,15 @@ pub fn compare_observed(cx: &mut Cx, what: &str, a: &BinArchive, c: &ArchiveCont
         }
     };
     let len = c.len();
-    if !cx.check(obs.size == len + pool, "same-size", || format!("{what}: size {} but content has {} data bytes + {} pool bytes", obs.size, len, pool)) {
+    // pool == 0: the size must be exactly the data length. Otherwise `pool` is the padded size of the distinct c-strings as the
+    // library lays them out today; the statement only requires the pool to be "included", so any pool that holds every c-string
+    // (at most one copy per cell) and keeps the tables aligned is accepted.
+    let upper: usize = c.cells.values().map(|x| if let Cell::CStr(s) = x { crate::gen::strings::sjis_encode(s).map(|b| b.len() + 1).unwrap_or(0) } else { 0 }).sum::<usize>() + 3;
+    let size_ok = if pool == 0 { obs.size == len } else { obs.size > len && obs.size - len <= upper.max(pool) };
+    if !cx.check(size_ok, "same-size", || format!("{what}: size {} but content has {} data bytes (+ a c-string pool of at most {} bytes)", obs.size, len, if pool == 0 { 0 } else { upper.max(pool) })) {
         return false;
     }
+    let pool = obs.size - len;
     // raw bytes outside annotated cells
     for i in 0..len {
         let cell = (i as u32) & !3;
@@ -106,9 +112,12 @@ pub fn check_image(cx: &mut Cx, bytes: &[u8], c: &ArchiveContent) -> bool {
     }
     let len = c.len();
     let (pool, _) = cstring_pool(c);
-    if !cx.check(img.data.len() == len + pool.len(), "image-data-size", || format!("header data size {} != {} data + {} c-string pool", img.data.len(), len, pool.len())) {
+    let pool_upper: usize = c.cells.values().map(|x| if let Cell::CStr(s) = x { crate::gen::strings::sjis_encode(s).map(|b| b.len() + 1).unwrap_or(0) } else { 0 }).sum::<usize>() + 3;
+    let ds_ok = if pool.is_empty() { img.data.len() == len } else { img.data.len() > len && img.data.len() - len <= pool_upper.max(pool.len()) };
+    if !cx.check(ds_ok, "image-data-size", || format!("header data size {} for {} data bytes + a c-string pool (library layout: {} bytes, upper bound {})", img.data.len(), len, pool.len(), pool_upper)) {
         return false;
     }
+    let pool_len = img.data.len() - len;
     if len % 4 == 0 {
         if !cx.check(img.data.len() % 4 == 0, "image-tables-aligned", || format!("data is word-aligned but the tables start at unaligned offset {}", 0x20 + img.data.len())) {
             return false;
@@ -126,7 +135,7 @@ pub fn check_image(cx: &mut Cx, bytes: &[u8], c: &ArchiveContent) -> bool {
             (Cell::CStr(s), Some(RefCell::Pointer(v))) => {
                 let v = *v as usize;
                 v >= len
-                    && v < len + pool.len()
+                    && v < len + pool_len
                     && img.data[v..].iter().position(|b| *b == 0).map(|n| sjis_decode(&img.data[v..v + n]).as_deref() == Some(s.as_str())).unwrap_or(false)
             }
             _ => false,
